@@ -36,6 +36,13 @@ def parent_spec(position, path, u_parent, team_targets_sub=False):
         tasks, links, tg = [sub], [], []
     elif position == "after-pred":
         tasks, links, tg = [{"name": "P0", "work": 2.0}, sub], [[0, 1, "FS"]], [0]
+    elif position == "mixed-inputs":
+        # C -FS-> B -SS-> SUB <-FS- A, SUB -FS-> Z; the SS link is declared before the FS link; A finishes long before B starts
+        tasks = [{"name": "A0", "work": 1.0}, {"name": "C0", "work": 2.0}, {"name": "B0", "work": 2.0}, sub, {"name": "Z0", "work": 1.0}]
+        links = [[1, 2, "FS"], [2, 3, "SS"], [0, 3, "FS"], [3, 4, "FS"]]
+        names = ["A0", "C0", "B0", "Z0"]
+        return {"tasks": tasks, "links": links, "unit_min": u_parent,
+                "teams": [{"name": "TM0", "targets": [0, 1, 2, 4], "workers": [{"name": "W%d" % i, "skills": {n: 1.0}, "cost": 1.0} for i, n in enumerate(names)]}]}
     elif position == "before-succ":
         tasks, links, tg = [sub, {"name": "Q0", "work": 1.0}], [[0, 1, "FS"]], [1]
     else:  # beside a worked task
@@ -173,6 +180,12 @@ def one(tmpdir, d, absence, how, remove, u_sub, u_parent, position, tag, prior=N
         elif prog != list(range(start, start + want)):
             out.append(("C20:sub-project-task-progress-steps-wrong-with-absence-and-auto-flag", det))
         return out, want
+    if extra == "failed-backward":
+        # a backward run that is refused with an exception (undocumented task_performed_mode) precedes the forward run
+        try:
+            m.project.backward_simulate(task_performed_mode="single-worker", max_time=MT)
+        except Exception:
+            pass
     try:
         m.project.simulate(max_time=MT, absence_time_list=[])
     except Exception as e:
@@ -181,6 +194,13 @@ def one(tmpdir, d, absence, how, remove, u_sub, u_parent, position, tag, prior=N
     log = [int(s) for s in t.state_record_list]
     ks = [k for k, s in enumerate(log) if s == S.T_WORKING]
     start = 2 if position == "after-pred" else 0
+    if position == "mixed-inputs":
+        # as soon as the dependencies allow: the step after the SS predecessor's first WORKING step, and after the FS predecessor has finished
+        lb = [int(s) for s in m.byname["B0"].state_record_list]
+        la = [int(s) for s in m.byname["A0"].state_record_list]
+        b_start = min([k for k, s in enumerate(lb) if s == S.T_WORKING] or [10 ** 6])
+        a_fin = min([k for k, s in enumerate(la) if s == S.T_FINISHED] or [10 ** 6])
+        start = max(b_start + 1, a_fin)
     det = {"sub_duration": dur, "u_sub": u_sub, "u_parent": u_parent, "position": position, "log": log, "expected_steps": want, "expected_start": start}
     if int(m.project.status) != 1:
         out.append(("C20:parent-did-not-complete", det))
@@ -273,6 +293,12 @@ def items(tier):
             for ab in ((), (0,)):  # (lists naming steps the run never reached are left out here: what an insert does to them is C18's subject)
                 for remove in (True, False):
                     out.append((d, ab, "success", remove, us, up, "alone", None, False, None, "post-insert"))
+        for us, up in ((1, 1), (3, 2), (2, 3)):
+            for pos in ("mixed-inputs",):
+                for remove in (True, False):
+                    out.append((d, (1,), "success", remove, us, up, pos, None))
+            for pos in ("after-pred", "before-succ", "mixed-inputs"):
+                out.append((d, (), "success", True, us, up, pos, None, False, None, "failed-backward"))
         for how in ("failure", "never"):
             for remove in (True, False):
                 out.append((d, (), how, remove, 1, 1, "alone", None))
